@@ -874,6 +874,18 @@ func (e *ext) c16GlueFacts() {
 		onlyMark = len(fd.Body.List) == 1 && c16TopLevelCall(fd.Body, "removeJobPassedArbitration")
 	}
 	fmt.Fprintf(&e.out, "/-- arbitratorImpl.DeletePodMigrationJob = removeJobPassedArbitration(job.UID) and nothing else -/\ndef arbDeleteOnlyDropsMark : Bool := %v\n", onlyMark)
+	// spec.paused: the arbitrator package (filter, sorts, handler, arbitrator) must not read it — a paused job that is Running or has
+	// passed arbitration keeps its reservation and its place in every budget; the model has no such field
+	pausedMentions := 0
+	for _, f := range e.dir(arb) {
+		ast.Inspect(f, func(n ast.Node) bool {
+			if s, ok := n.(*ast.SelectorExpr); ok && s.Sel.Name == "Paused" {
+				pausedMentions++
+			}
+			return true
+		})
+	}
+	fmt.Fprintf(&e.out, "/-- package arbitrator (non-test files): selector expressions `x.Paused` -/\ndef arbPausedMentions : Nat := %d\n", pausedMentions)
 
 	// 2. the caps in package v1alpha2: every selector expression naming one of the three fields, outside the generated deep-copy
 	// and conversion files (struct field declarations are not selector expressions).  Defaulting must not touch them.
